@@ -58,8 +58,21 @@ ASSUMPTIONS = [
 BIG = 10 ** 9
 
 
-def run_lean_unit(lines):
-    return core.run_lean(lines, main="Driver/Main_Compile.lean")
+def run_lean_unit(lines, jobs=8):
+    """the lines are few but large (deep trees): shard them over `jobs` driver processes"""
+    from concurrent.futures import ThreadPoolExecutor
+
+    if len(lines) < 2 * jobs:
+        return core.run_lean(lines, main="Driver/Main_Compile.lean")
+    order = sorted(range(len(lines)), key=lambda i: -len(lines[i]))
+    shards = [order[j::jobs] for j in range(jobs)]
+    with ThreadPoolExecutor(jobs) as ex:
+        res = list(ex.map(lambda sh: core.run_lean([lines[i] for i in sh], main="Driver/Main_Compile.lean"), shards))
+    out = [None] * len(lines)
+    for sh, r in zip(shards, res):
+        for i, o in zip(sh, r):
+            out[i] = o
+    return out
 
 
 # ----------------------------------------------------------------------------- thresholds
@@ -372,9 +385,12 @@ def formulas(rng, thorough):
     names = list(fams)
     ops = ["+", "-", "*", "/"]
     # every base-term kind just above the switch (the per-kind branches of the explicit-stack code)
+    # (quick tier: a rotating quarter of the kinds at n = 401, the others at n = 48 where the forced
+    # thresholds 0 / 10^9 drive the same branches at a tenth of the cost)
+    r = rng.randint(0, 3)
     for i, f in enumerate(names):
         for op in (ops if thorough else [ops[(i + rng.randint(0, 3)) % 4]]):
-            out.append((f, op, 401))
+            out.append((f, op, 401 if (thorough or i % 4 == r) else 48))
     # all operators × all sizes
     core_fams = ["var", "sq", "un:sin", "un:atan", "vec:dot", "vec:ps", "param"]
     for f in (core_fams if thorough else [rng.choice(core_fams)]):
@@ -526,16 +542,21 @@ def run(ctx) -> core.Report:
                 lines.append(f"depths {s}")
                 metas.append((base, bname, "depths", py_depths(e)))
                 for thr, sname in ((0, "iter"), (400, "default")):
+                    if (bname, sname) not in obs:
+                        continue
+                    big = n >= 399
+                    if big and bname != "left" and thr == 400:
+                        continue  # the explicit-stack model is O(n²) in the driver: keep the big ties few
                     o = obs[(bname, sname)]
                     if o["vars"][0] is not None:
                         lines.append(f"vars {s} {thr}")
                         metas.append((base, bname, f"vars@{thr}", "(" + " ".join(f'"{x}"' for x in o["vars"][0]) + ")"))
-                    for w in (wrts if (op in "+-" or n <= 30) else []):
+                    for w in ((wrts[:1] if big else wrts) if (op in "+-" or n <= 30) else []):
                         g = o["grad:" + w.name][0]
                         if g is not None:
                             lines.append(f"gradsw {s} {Ser(ids).var(w)} {thr}")
                             metas.append((base, bname, f"gradsw@{thr}:{w.name}", ser(g, with_ids=False)))
-                    if n <= 401 or bname != "left" or thorough:
+                    if n <= 401 or thorough:
                         txt, _ = K.py_compile(e, V, thr)
                         lines.append(f"compile {s} {vtxt} {thr}")
                         metas.append((base, bname, f"compile@{thr}", txt))
